@@ -572,4 +572,36 @@ theorem gen_locText_valid (t : Str) (l : Option Str) :
   subst hj'
   exact ⟨_, locTextJson_eq _ _, hp⟩
 
+/-! ### `UAEUInformation.xml_encode`: generated = the `<EUInformation>` element of the hand model -/
+
+theorem tEU_eq : tEU = ['E', 'U', 'I', 'n', 'f', 'o', 'r', 'm', 'a', 't', 'i', 'o', 'n'] := by decide
+theorem tNsUri_eq : tNsUri = ['N', 'a', 'm', 'e', 's', 'p', 'a', 'c', 'e', 'U', 'r', 'i'] := by decide
+theorem tUnitId_eq : tUnitId = ['U', 'n', 'i', 't', 'I', 'd'] := by decide
+theorem tDispName_eq : tDispName = ['D', 'i', 's', 'p', 'l', 'a', 'y', 'N', 'a', 'm', 'e'] := by decide
+theorem tDescr_eq : tDescr = ['D', 'e', 's', 'c', 'r', 'i', 'p', 't', 'i', 'o', 'n'] := by decide
+theorem en_eq : "en".toList = ['e', 'n'] := by decide
+
+theorem xmlns_eq1 : xmlnsAttr true = [' ', 'x', 'm', 'l', 'n', 's', '=', '"', 'h', 't', 't', 'p', ':', '/', '/', 'o', 'p', 'c', 'f', 'o', 'u', 'n', 'd', 'a', 't', 'i', 'o', 'n', '.', 'o', 'r', 'g', '/', 'U', 'A', '/', '2', '0', '0', '8', '/', '0', '2', '/', 'T', 'y', 'p', 'e', 's', '.', 'x', 's', 'd', '"'] := by decide
+theorem optEn (o : Option Str) : (match o with | some x => x | none => ['e', 'n']) = o.getD ['e', 'n'] := by cases o <;> rfl
+theorem optEsc (o : Option Str) : (match o with | some x => pyXmlEscape x | none => ([] : Str)) = Xml.escText (optS o) := by
+  cases o <;> simp [optS, pyXmlEscape, Xml.escText]
+
+set_option maxRecDepth 8000 in
+/-- the element `UAEngineeringUnits.xml_encode` wraps into its extension object (`encodeText (.engUnits …)`): name-space URI
+    escaped, unit id as decimal text, a missing Locale written as `en`, texts escaped, locales not -/
+theorem euInfoXml_eq (uri : Str) (unit : Int) (dT dL eT eL : Option Str) (b : Bool) :
+    Gen.euinfo_xml_encode ⟨uri, unit, ⟨dT, dL⟩, ⟨eT, eL⟩⟩ b =
+      .ok (wrap tEU b (wrap tNsUri false (Xml.escText uri) ++ wrap tUnitId false (pyStrInt unit) ++ euLT tDispName dT dL ++ euLT tDescr eT eL)) := by
+  unfold Gen.euinfo_xml_encode euLT wrap
+  rw [tEU_eq, tNsUri_eq, tUnitId_eq, tDispName_eq, tDescr_eq, tLoc_eq, tText_eq, en_eq, xmlns_false]
+  have hnil : Xml.escText [] = [] := by simp [Xml.escText]
+  cases b
+  · rw [xmlns_false]
+    cases dT <;> cases dL <;> cases eT <;> cases eL <;>
+      simp [bindE, optS, pyXmlEscape, pyFormat, PyFormat.fmt, hnil]
+  · rw [← xmlns_eq1]
+    generalize xmlnsAttr true = X
+    cases dT <;> cases dL <;> cases eT <;> cases eL <;>
+      simp [bindE, optS, pyXmlEscape, pyFormat, PyFormat.fmt, hnil]
+
 end Opcua.Tie
